@@ -205,6 +205,17 @@ fn fresh_on(items: &Items) -> Result<Melda, String> {
     }
 }
 
+/// a fresh replica on the same items whose storage lists them in another order
+fn fresh_obs_perm(items: &Items, perm: u64) -> Value {
+    let st = SimStore::from_items(items.clone());
+    st.set_perm(perm);
+    match catch_unwind(AssertUnwindSafe(|| Melda::new(st.dyn_adapter()))) {
+        Ok(Ok(m)) => obs_doc(&m),
+        Ok(Err(e)) => json!({ "open": format!("err {}", msg_prefix(&e.to_string())) }),
+        Err(e) => json!({ "open": format!("panic {}", msg_prefix(&pmsg(e))) }),
+    }
+}
+
 fn fresh_obs(items: &Items) -> Value {
     match fresh_on(items) {
         Ok(m) => obs_doc(&m),
@@ -1049,6 +1060,11 @@ impl World {
                         let mine = obs_doc(m);
                         if f != mine {
                             fails.push(("C01", format!("reload differs from a freshly opened replica: {}", first_diff(&mine, &f))));
+                        } else {
+                            let fp = fresh_obs_perm(&self.reps[r].be.snapshot(), 0x5151 ^ self.op_index as u64);
+                            if fp != f {
+                                fails.push(("C01", format!("a fresh replica differs when storage lists the same items in another order: {}", first_diff(&f, &fp))));
+                            }
                         }
                     }
                     self.reps[r].dirty = false;
@@ -1767,6 +1783,15 @@ impl World {
             let f = fresh_obs(&union);
             if &f != a {
                 fails.push(("C01", format!("a fresh replica on a file copy differs from the synchronised replicas: {}", first_diff(a, &f))));
+            }
+            // the same items listed by storage in other orders
+            for perm in [123457u64, 987654321, 0xABCDEF ^ self.op_index as u64] {
+                let fp = fresh_obs_perm(&union, perm);
+                if fp != f {
+                    fails.push(("C01", format!("a fresh replica differs when storage lists the same items in another order (perm {}): {}", perm, first_diff(&f, &fp))));
+                    break;
+                }
+                *self.stats.entry("fresh_permuted_listing".into()).or_insert(0) += 1;
             }
             if !self.light {
                 let st = SimStore::new();
